@@ -13,7 +13,7 @@ func init() {
 			if tier == "thorough" {
 				maxN = 5
 			}
-			for d := int64(0); d < 4; d++ {
+			for d := int64(0); d < 5; d++ {
 				for op := int64(0); op < 15; op++ {
 					for n := int64(0); n <= maxN; n++ {
 						if tier == "quick" && n == 3 && d >= 2 {
@@ -27,9 +27,9 @@ func init() {
 			return []group{{Tags: "", Pkgs: []string{"c11"}, Cases: cs}}
 		},
 		Reach:       []string{"view", "isolation"},
-		Explanation: "Bounded symbolic execution of MemFS.Sub (view creation by struct copy and root substitution, searchNode starting at the view's root, lexical clamping of '..'): a parent P and a twin parent Q are built identically (symlink-free); V = P.Sub(d) for d in {/w, /w/a, /, /w/a/..}; one of 15 operations is applied through V on the path \"/\" followed by n fully symbolic bytes (all values but NUL, so '.', '..', repeated separators and every name are covered) and, on Q, on the cleaned path prefixed with d; errno, result, the whole tree of P versus Q, and what V shows versus Q's subtree must be equal for every value: nothing outside d can be reached or changed by any path. Isolation: SetUser/SetUMask/Chdir on a view with symbolic user and umask leave the parent and a sibling view unchanged; changes made through the parent are visible through the views.",
+		Explanation: "Bounded symbolic execution of MemFS.Sub (view creation by struct copy and root substitution, searchNode starting at the view's root, lexical clamping of '..'): a parent P and a twin parent Q are built identically (symlink-free); V = P.Sub(d) for d in {/w, /w/a, /, /w/a/.., . with the working directory at /w}; one of 15 operations is applied through V on the path \"/\" followed by n fully symbolic bytes (all values but NUL, so '.', '..', repeated separators and every name are covered) and, on Q, on the cleaned path prefixed with d; errno, result, the whole tree of P versus Q, and what V shows versus Q's subtree must be equal for every value: nothing outside d can be reached or changed by any path. Isolation: SetUser/SetUMask/Chdir on a view with symbolic user and umask leave the parent and a sibling view unchanged; changes made through the parent are visible through the views.",
 		Bounds: func(tier string) map[string]any {
-			return map[string]any{"symbolic_path_bytes": map[string]int{"quick": 3, "thorough": 5}[tier], "calls_per_history": 1, "view_directories": 4, "outside": "symbolic links (the property is stated for symlink-free paths), longer paths, histories, relative paths after Chdir"}
+			return map[string]any{"symbolic_path_bytes": map[string]int{"quick": 3, "thorough": 5}[tier], "calls_per_history": 1, "view_directories": 5, "outside": "symbolic links (the property is stated for symlink-free paths), longer paths, histories, relative paths after Chdir"}
 		},
 	})
 }
